@@ -518,7 +518,7 @@ func replay(g gx.G, prods []*grammar.Production, w []string) string {
 type built struct {
 	T       *lr.ParsingTable
 	raw     *lr.ParsingTable // before ResolveConflicts (= T when there are no precedence levels)
-	verdict string // table | conflict
+	verdict string           // table | conflict
 	usable  bool
 	plain   bool // built without precedence levels
 }
@@ -559,6 +559,39 @@ func isOperatorGrammar(g gx.G) bool {
 		}
 	}
 	return sawID
+}
+
+// validGrammar: the well-formedness the library's Verify() asks for (stated independently); the property
+// quantifies over valid grammars only.
+func validGrammar(g gx.G) bool {
+	isT := map[string]bool{}
+	for _, t := range g.Terms {
+		isT[t] = true
+		if g.IsNonTerm(t) || t == string(grammar.Endmarker) {
+			return false
+		}
+	}
+	if !g.IsNonTerm(g.Start) || g.IsNonTerm(g.Start+"′") {
+		return false
+	}
+	has := map[string]bool{}
+	for _, p := range g.Prods {
+		if !g.IsNonTerm(p.Head) {
+			return false
+		}
+		has[p.Head] = true
+		for _, s := range p.Body {
+			if !isT[s] && !g.IsNonTerm(s) {
+				return false
+			}
+		}
+	}
+	for _, n := range g.NonTerms {
+		if !has[n] {
+			return false
+		}
+	}
+	return true
 }
 
 const opTimeout = 10 * time.Second
@@ -642,6 +675,10 @@ func Exec(c hx.Case) hx.Result {
 			}
 		case "build":
 			if len(f) == 2 && builders[f[1]] != nil {
+				if !validGrammar(st.g) {
+					out = "ok invalid-grammar"
+					break
+				}
 				out, stop = st.build(i, f[1], bad, tags)
 			}
 		case "dump":
